@@ -34,14 +34,14 @@ var adapters []adapter
 
 // obs is what one (typed or untyped) instance of the tree observed.
 type obs struct {
-	errs                                          []string
-	sub, fsub, cloneSub, calls                    []string
-	subList, fsubList, cloneList, getForeign      string
-	subReady, fsubReady, cloneReady               bool
-	readers                                       []func()
-	closers                                       []func()
-	dones                                         []func() <-chan struct{}
-	doneAfterClose                                []bool
+	errs                                     []string
+	sub, fsub, cloneSub, calls               []string
+	subList, fsubList, cloneList, getForeign string
+	subReady, fsubReady, cloneReady          bool
+	readers                                  []func()
+	closers                                  []func()
+	dones                                    []func() <-chan struct{}
+	doneAfterClose                           []bool
 }
 
 // runUntyped is the same tree on the untyped core.
@@ -238,7 +238,7 @@ func Property() runner.Property {
 	return runner.Property{
 		ID:    "C20",
 		Level: "model_checking",
-		Rule: "behaviour: for each of the 12 typed packages the tree {Subscribe, SubscribeWithFilter, CloneForFilter+Refilter+Subscribe, NewMonitor} runs through the real typed wrapper over a publisher-level base and, side by side, on the untyped core over an identical base; the history contains objects of a foreign type (in the first list and as an event); schedules within d deviations of the default (d=1 quick, 2 thorough); oracle: typed event streams, monitor callbacks, cache lists, readiness and Done() equal the untyped ones restricted to the type, foreign objects are skipped, nothing panics. source level (sequential_part): the 12 typed generated.go and 8 generated joins equal their templates instantiated with the Makefile's parameters (structural comparison of every top-level declaration), and the 12 typed clients issue GET on the API path of their own resource and namespace for List and Watch (48 requests against a recording transport)",
+		Rule:  "behaviour: for each of the 12 typed packages the tree {Subscribe, SubscribeWithFilter, CloneForFilter+Refilter+Subscribe, NewMonitor} runs through the real typed wrapper over a publisher-level base and, side by side, on the untyped core over an identical base; the history contains objects of a foreign type (in the first list and as an event); schedules within d deviations of the default (d=1 quick, 2 thorough); oracle: typed event streams, monitor callbacks, cache lists, readiness and Done() equal the untyped ones restricted to the type, foreign objects are skipped, nothing panics. source level (sequential_part): the 12 typed generated.go and 8 generated joins equal their templates instantiated with the Makefile's parameters (structural comparison of every top-level declaration), and the 12 typed clients issue GET on the API path of their own resource and namespace for List and Watch (48 requests against a recording transport)",
 		Assumptions: []string{
 			"publisher-level bases; deviation-bounded schedules",
 			"template equality is an exhaustive structural equality over 20 instances, not a behavioural exploration",
